@@ -463,6 +463,8 @@ def c05(tier, seed):
     # ---- code -> spec: real covariate-free runs on random elections
     real = _split_raised(run, [t for part in real_async.get() for t in part])
     run.witness("real_covariate_free_runs", len(real))
+    run.witness("runs_with_every_first_solve_failing", sum(1 for t in real if t.get("faulted")))
+    run.witness("runs_with_hamlets", sum(1 for t in real if t.get("hamlets")))
     _tick("c05 real runs")
     if real:
         run.sample({"recorded_run": {"rep": real[0]["rep"][:4], "non": real[0]["non"][:3], "pred": real[0]["pred"][:3]}})
@@ -483,5 +485,7 @@ def c05(tier, seed):
             "prediction_floored_at_partial_count",
             "replayed_through_client",
             "real_covariate_free_runs",
+            "runs_with_every_first_solve_failing",
+            "runs_with_hamlets",
         ]
     )
